@@ -169,6 +169,67 @@ pub fn random_value(rng: &mut Rng) -> MRv {
     }
 }
 
+/// numbers at which a narrower integer type / a signed or float conversion would change a
+/// comparison or a maximum (counts stay ≤ 2^53 so that `value()` sums cannot overflow u64)
+const EDGE_COUNTS: [u64; 6] = [(1 << 31) - 1, 1 << 31, (1 << 32) - 1, 1 << 32, (1 << 32) + 1, 1 << 53];
+const EDGE_TIMES: [u64; 8] = [(1 << 32) - 1, 1 << 32, (1 << 32) + 1, 1 << 53, (1 << 63) - 1, 1 << 63, u64::MAX - 1, u64::MAX];
+
+fn widen_map(rng: &mut Rng, m: &mut BTreeMap<u64, u64>) {
+    for v in m.values_mut() {
+        if rng.chance(1, 2) {
+            *v = *rng.pick(&EDGE_COUNTS);
+        }
+    }
+}
+
+/// `random_value` pushed to the edges: counts / Lamport times / expiries at integer-width
+/// boundaries (two operands often draw the SAME edge or neighbours), hashes with more fields than
+/// any small-collection fast path would hold (33..40)
+pub fn random_value_wide(rng: &mut Rng) -> MRv {
+    let mut m = random_value(rng);
+    match &mut m.crdt {
+        MCrdt::Lww(l) => {
+            if rng.chance(1, 2) {
+                l.t = *rng.pick(&EDGE_TIMES);
+            }
+        }
+        MCrdt::G(c) => widen_map(rng, c),
+        MCrdt::P(p, n) => {
+            widen_map(rng, p);
+            widen_map(rng, n);
+        }
+        MCrdt::S(_) => {}
+        MCrdt::O(_, next) => widen_map(rng, next),
+        MCrdt::H(h) => {
+            if rng.chance(1, 2) {
+                for i in 0..rng.range(33, 40) {
+                    if rng.chance(5, 6) {
+                        h.insert(format!("f{:02}", i), rand_lww(rng));
+                    }
+                }
+            }
+            for l in h.values_mut() {
+                if rng.chance(1, 6) {
+                    l.t = *rng.pick(&EDGE_TIMES);
+                }
+            }
+        }
+    }
+    if let Some(vc) = &mut m.vc {
+        widen_map(rng, vc);
+    }
+    if rng.chance(1, 3) {
+        m.t = *rng.pick(&EDGE_TIMES);
+    }
+    if rng.chance(1, 4) {
+        m.exp = Some(*rng.pick(&EDGE_TIMES));
+    }
+    if rng.chance(1, 6) {
+        m.rf = Some(*rng.pick(&[0u8, 1, 127, 128, 255]));
+    }
+    m
+}
+
 /// counters / sets built through the public CRDT API
 pub fn api_crdt_value(rng: &mut Rng) -> ReplicatedValue {
     let rid = ReplicaId::new(rng.range(1, 3));
@@ -826,8 +887,13 @@ pub fn run(a: &Args) {
             pool.push((v, "reachable"));
             keyof.push(Some(k));
         }
-        for _ in 0..6 {
-            pool.push((random_value(&mut rng).to_real(), "random"));
+        for i in 0..6 {
+            if i < 4 {
+                pool.push((random_value(&mut rng).to_real(), "random"));
+            } else {
+                out.count("gen:random-value-at-integer-width-boundaries/big-hash");
+                pool.push((random_value_wide(&mut rng).to_real(), "random-wide"));
+            }
             keyof.push(None);
         }
         for _ in 0..4 {
